@@ -6,7 +6,7 @@ import CalVerif.Model.XmlText
       si <closing-qname-hex> <ev>…        read_string after the Start of the item  → `ok S:<hex> rest=<n>` | `ok N rest=<n>`
       sst <ev>…                           read_shared_strings                       → `ok <n> <hex> <hex> …`
       cell <t|-> <hex,hex,…|-> <ev>…      children of one <c t=…> (strings = table) → `ok str:<hex>` | `ok shared:<hex>` | `ok empty` | `ok other`
-      fmla <ev>…                          formula text of one <c> (next_formula)    → `ok <hex> rest=<n>`
+      fmla <ev>…                          formula text of one <c> (next_formula)    → `ok str:<hex> rest=<n>`
       odscell <ev>…                       get_datatype text path                    → `ok <hex> rest=<n>`
       wide <hex>                          wide_str                                  → `ok <units as LE bytes hex> <str_len>`
     errors: `err:<class>` | `panic:<site>` | `fuel`
@@ -95,7 +95,7 @@ def handleOne (ws : List String) : String :=
     | _, _ => "bad-request"
   | "fmla" :: evs =>
     match parseEvs evs with
-    | some es => showRes (fun (s, rest) => hx s ++ s!" rest={rest.length}") (formulaText es)
+    | some es => showRes (fun (s, rest) => "str:" ++ hx s ++ s!" rest={rest.length}") (formulaText es)
     | none => "bad-request"
   | "odscell" :: evs =>
     match parseEvs evs with
